@@ -83,6 +83,21 @@ class CsrfReplayer:
     def restart(self) -> None:
         self.da.restart()
 
+    def age(self, minutes: int) -> None:
+        """time passes (longer than the 20 minute life of a used-token record and of the csrf cookie's max-age) and
+        the users log in again; the clients keep their csrf cookie, as an attacker replaying a token would.
+        Not an edge of the model: nothing in the abstract state depends on time."""
+        saved = {k: x.csrf_cookie() for k, x in self.sessions.items()}
+        self.da.clock.advance(minutes=minutes)
+        for k, x in self.sessions.items():
+            info = self.da.login(x.client, x.role)
+            if info.get('success'):
+                x.jwt = info['accessToken']['jwt']
+            if x.csrf_cookie() != saved[k] and saved[k]:
+                x.client.set_cookie('csrf', saved[k], domain='localhost', path='/')
+            if x.csrf_cookie() != saved[k]:
+                raise MachineryFailure('could not keep the csrf cookie across the ageing step')
+
 
 def csrf_walks(edges: list[dict[str, Any]], da, rng: random.Random, nwalks: int, depth: int,
                out: Outcome) -> list[dict[str, Any]]:
@@ -107,6 +122,10 @@ def csrf_walks(edges: list[dict[str, Any]], da, rng: random.Random, nwalks: int,
          ('issue', 2, 'c1', 'streams', 0), ('present', 2, 'c2', 'streams', 0), ('present', 2, 'c1', 'streams', 0)],
         [('issue', 1, 'c1', 'streams', 0), ('present', 1, 'c1', 'keys', 0), ('present', 1, 'c1', 'streams', 0),
          ('restart', 0, '', '', 0), ('present', 1, 'c1', 'streams', 0)],
+        # a used token is replayed after its used-token record has expired and the users have logged in again
+        [('issue', 1, 'c1', 'streams', 0), ('present', 1, 'c1', 'streams', 0), ('age', 21, '', '', 0), ('present', 1, 'c1', 'streams', 0),
+         ('issue', 2, 'c2', 'keys', 0), ('present', 2, 'c2', 'keys', 0), ('age', 45, '', '', 0), ('present', 2, 'c2', 'keys', 0),
+         ('present', 1, 'c1', 'streams', 0)],
     ]
     for w in range(nwalks):
         tid = w + 1
@@ -121,6 +140,12 @@ def csrf_walks(edges: list[dict[str, Any]], da, rng: random.Random, nwalks: int,
             outs = succ.get(cur, [])
             if not outs:
                 break
+            if script and script[0][0] == 'age' or (not script and accepted_once and rng.random() < 0.08):
+                minutes = script.pop(0)[1] if script else rng.choice([21, 60])
+                rp.age(minutes)
+                lines.append({'tid': tid, 'ev': 'age', 'minutes': minutes})
+                kinds['aged'] = kinds.get('aged', 0) + 1
+                continue
             if script:
                 act, tok, ck, svc, tam = script.pop(0)
                 forced = [e for e in outs if e['act'] == act and (act == 'restart' or (
